@@ -224,6 +224,22 @@ CLAIMS = {
         design="§7 C13",
         note=TB + "Artefacts are compared as text; the parsers' own input-preservation is checked by ast.dump, not modelled.",
     ),
+    "C16": dict(
+        technique="Lean 4 theorems on the statement-list surgery and on a total model of RewriteName over the generic AST + differential run; independent scope-aware renamer as predicate",
+        text=(
+            "Kernel-checked: Body.emit_parse_body / parse_emit_body / emit_body_noreturn (a carried body, with its final "
+            "return when the description supplies it, comes back statement for statement - none dropped, duplicated or "
+            "reordered, the return once; any body length), rwItems_length (RewriteName keeps every statement), "
+            "rwNode_frame / rwItems_frame (a sub-tree that mentions no parameter is returned unchanged - no other name is "
+            "touched) and rwNode_kind (only Name nodes change; keyword-argument names are atoms and are copied), by mutual "
+            "induction over the nested-inductive tree. Both models are tied to the code on every generated function "
+            "(RewriteName output tree; emitted statement list). The predicate compares ast.dump of the body after "
+            "parse.function + emit.function, of the extra statements of an argparse function, and the __call__ body against "
+            "an independent scope-aware renamer. RewriteName's scope-unawareness (D19) is a recorded finding."
+        ),
+        design="§7 C16",
+        note=TB + "ast.unparse/ast.parse normalise statements before comparison (H_unparse_parse, tested per case).",
+    ),
 }
 
 PENDING_REASON = "check not built yet in this round (work in progress; see DESIGN.md §10 build order) — not a claim that the technique cannot apply"
